@@ -546,6 +546,21 @@ fn reg_data<F: Fl>(seed: u64, n: usize, nf: usize) -> (Array2<F>, Array1<F>) {
     let y = x.outer_iter().map(|r| F::of(r.iter().enumerate().map(|(j, v)| w[j % 3] * v.to64()).sum::<f64>() + 0.5 + 0.3 * g.range(-1.0, 1.0))).collect();
     (x, y)
 }
+/// boundary values of the float type: zeros of both signs, one, the smallest normal and a subnormal number,
+/// the largest finite number, the largest number below one, the machine epsilon
+fn edge<F: Fl>(k: usize) -> F {
+    match k % 9 {
+        0 => F::zero(),
+        1 => -F::zero(),
+        2 => F::one(),
+        3 => F::min_positive_value(),
+        4 => F::min_positive_value() / F::of(4.0),
+        5 => F::max_value(),
+        6 => -F::max_value(),
+        7 => F::one() - F::epsilon() / F::of(2.0),
+        _ => F::epsilon(),
+    }
+}
 fn rng(seed: u64) -> Xoshiro256Plus {
     Xoshiro256Plus::seed_from_u64(seed)
 }
@@ -691,6 +706,9 @@ fn t_root(ev: &mut Vec<Value>, cfg: &Cfg) -> bool {
                 3 => PlattError::MinStepNegative(-1.1),
                 4 => PlattError::SigmaNegative(-0.3),
                 5 => PlattError::LinfaError(Error::MismatchedShapes(2, 5)),
+                6 => PlattError::MinStepNegative(-0.0),
+                7 => PlattError::SigmaNegative(f32::MAX),
+                8 => PlattError::LinfaError(Error::MismatchedShapes(0, 0)),
                 _ => bad_var(cfg),
             };
             hist!(ev, cfg, "plain", PlattError, v, |e: &PlattError| obs_err(e), noeq);
@@ -744,11 +762,15 @@ fn t_nn(ev: &mut Vec<Value>, cfg: &Cfg) -> bool {
             macro_rules! go {
                 ($F:ty) => {{
                     let p = match cfg.var {
-                        0 => 3.0,
-                        1 => 1.3,
+                        0 => <$F>::of(3.0),
+                        1 => <$F>::of(1.3),
+                        // the public field set to boundary values: p = 1 (smallest exponent of a norm), 0, the largest float
+                        2 => edge::<$F>(2),
+                        3 => edge::<$F>(0),
+                        4 => edge::<$F>(5),
                         _ => bad_var(cfg),
                     };
-                    hist!(ev, cfg, "plain", LpDist<$F>, LpDist(<$F>::of(p)), |d: &LpDist<$F>| obs_dist::<$F, _>(d), eq)
+                    hist!(ev, cfg, "plain", LpDist<$F>, LpDist(p), |d: &LpDist<$F>| obs_dist::<$F, _>(d), eq)
                 }};
             }
             by_ft!(cfg, go)
@@ -887,6 +909,7 @@ mod clu {
                             1 => KMeansInit::Precomputed(cloud::<$F>(5 + cfg.data, 3, 2, -1.0, 1.0)),
                             2 => KMeansInit::KMeansPlusPlus,
                             3 => KMeansInit::KMeansPara,
+                            4 => KMeansInit::Precomputed(Array2::zeros((0, 2))),
                             _ => bad_var(cfg),
                         };
                         hist!(ev, cfg, "plain", KMeansInit<$F>, v, |v: &KMeansInit<$F>| {
@@ -912,9 +935,11 @@ mod clu {
                             2 => p.n_runs(1).init_method(KMeansInit::Precomputed(x.select(Axis(0), &[0, 1, 2]))),
                             // user-supplied centroids in column-major order: the parameter set holds the matrix as given
                             3 => p.n_runs(1).max_n_iterations(4).init_method(KMeansInit::Precomputed(col_major(&x.select(Axis(0), &[0, 1, 2])))),
-                            4 => KMeans::<$F, L2Dist>::params_with(0, rng(cfg.data), L2Dist),
-                            5 => p.tolerance(<$F>::of(0.0)),
-                            6 => p.n_runs(0),
+                            // boundary values of the legal ranges
+                            4 => p.n_runs(1).max_n_iterations(1).tolerance(edge::<$F>(4)),
+                            5 => KMeans::<$F, L2Dist>::params_with(0, rng(cfg.data), L2Dist),
+                            6 => p.tolerance(<$F>::of(0.0)),
+                            7 => p.n_runs(0),
                             _ => bad_var(cfg),
                         };
                         let incr = |vp: &KMeansValidParams<$F, Xoshiro256Plus, L2Dist>| -> Dg {
@@ -1000,8 +1025,9 @@ mod clu {
                         let p = match cfg.var {
                             0 => p,
                             1 => p.n_runs(2).tolerance(<$F>::of(1e-2)).reg_covariance(<$F>::of(1e-3)).max_n_iterations(15).init_method(GmmInitMethod::Random),
-                            2 => GaussianMixtureModel::<$F>::params_with_rng(0, rng(cfg.data)),
-                            3 => p.tolerance(<$F>::of(-1.0)),
+                            2 => p.n_runs(1).max_n_iterations(1).tolerance(edge::<$F>(3)).reg_covariance(edge::<$F>(0)),
+                            3 => GaussianMixtureModel::<$F>::params_with_rng(0, rng(cfg.data)),
+                            4 => p.tolerance(<$F>::of(-1.0)),
                             _ => bad_var(cfg),
                         };
                         if cfg.ty == "GmmParams" {
@@ -1068,6 +1094,8 @@ mod clu {
                             0 => one!(L2Dist, CommonNearestNeighbour, Dbscan::params::<$F>(3).tolerance(<$F>::of(1.1))),
                             1 => one!(L1Dist, BallTree, Dbscan::params_with::<$F, _, _>(2, L1Dist, BallTree::new()).tolerance(<$F>::of(0.7))),
                             2 => one!(LpDist<$F>, CommonNearestNeighbour, Dbscan::params_with::<$F, _, _>(4, LpDist(<$F>::of(3.0)), CommonNearestNeighbour::LinearSearch).tolerance(<$F>::of(1.9))),
+                            // the smallest legal values: two points, the smallest positive tolerance
+                            3 => one!(L2Dist, CommonNearestNeighbour, Dbscan::params::<$F>(2).tolerance(edge::<$F>(4)).nn_algo(CommonNearestNeighbour::LinearSearch)),
                             _ => bad_var(cfg),
                         }
                     }};
@@ -1116,13 +1144,15 @@ mod clu {
                                 }
                             }
                             1 => one!(L1Dist, LinearSearch, Optics::params_with::<$F, _, _>(2, L1Dist, LinearSearch::new()).tolerance(<$F>::of(2.5))),
-                            2 => {
+                            // the smallest legal number of points, the largest finite tolerance
+                            2 => one!(L2Dist, CommonNearestNeighbour, Optics::params::<$F>(2).tolerance(edge::<$F>(5))),
+                            3 => {
                                 if cfg.ty == "OpticsValidParams" {
                                     bad_var(cfg)
                                 }
                                 one!(L2Dist, CommonNearestNeighbour, Optics::params::<$F>(1).tolerance(<$F>::of(2.5)))
                             }
-                            3 => {
+                            4 => {
                                 if cfg.ty == "OpticsValidParams" {
                                     bad_var(cfg)
                                 }
@@ -1287,12 +1317,22 @@ mod lin {
                         let p = TweedieRegressor::<$F>::params();
                         let p = match cfg.var {
                             0 => p.power(<$F>::of(0.0)).alpha(<$F>::of(0.1)),
-                            1 => p.power(<$F>::of(1.0)).alpha(<$F>::of(0.0)).max_iter(60).tol(<$F>::of(1e-5)),
-                            2 => p.power(<$F>::of(2.0)).alpha(<$F>::of(0.01)).link(Link::Log).fit_intercept(false),
+                            1 | 4 => p.power(<$F>::of(1.0)).alpha(<$F>::of(0.0)).max_iter(60).tol(<$F>::of(1e-5)),
+                            2 | 3 => p.power(<$F>::of(2.0)).alpha(<$F>::of(0.01)).link(Link::Log).fit_intercept(false),
                             _ => bad_var(cfg),
                         };
                         if cfg.ty == "TweedieRegressor" {
-                            let m = p.fit(&ds).expect("harness: setup: tweedie fit");
+                            let mut m = p.fit(&ds).expect("harness: setup: tweedie fit");
+                            // public fields moved to boundary values after the fit
+                            if cfg.var == 3 {
+                                m.intercept = edge::<$F>(1);
+                                m.coef[0] = edge::<$F>(0);
+                                m.coef[1] = edge::<$F>(4);
+                            } else if cfg.var == 4 {
+                                m.intercept = edge::<$F>(2);
+                                m.coef[0] = edge::<$F>(5);
+                                m.coef[1] = edge::<$F>(6);
+                            }
                             hist!(ev, cfg, "model", TweedieRegressor<$F>, m, |m: &TweedieRegressor<$F>| m.obs(), eq)
                         } else {
                             type P = TweedieRegressorValidParams<$F>;
@@ -1360,6 +1400,9 @@ mod enet {
                     5 => ElasticNetError::IncorrectTargetShape,
                     6 => ElasticNetError::BaseCrate(linfa::Error::Parameters("p".into())),
                     7 => ElasticNetError::BaseCrate(linfa::Error::NotEnoughSamples),
+                    8 => ElasticNetError::InvalidL1Ratio(1.0),
+                    9 => ElasticNetError::InvalidPenalty(-0.0),
+                    10 => ElasticNetError::InvalidTolerance(f32::MIN_POSITIVE / 4.0),
                     _ => bad_var(cfg),
                 };
                 hist!(ev, cfg, "plain", ElasticNetError, v, |e: &ElasticNetError| {
@@ -1382,6 +1425,7 @@ mod enet {
                             1 => p.penalty(<$F>::of(0.1)).l1_ratio(<$F>::of(0.5)).max_iterations(300).tolerance(<$F>::of(1e-5)),
                             2 => p.penalty(<$F>::of(0.3)).l1_ratio(<$F>::of(1.0)).with_intercept(false),
                             3 => p.penalty(<$F>::of(0.2)),
+                            4 => p.penalty(edge::<$F>(0)).l1_ratio(edge::<$F>(2)).tolerance(edge::<$F>(0)).max_iterations(1),
                             _ => bad_var(cfg),
                         };
                         if cfg.ty == "ElasticNet" {
@@ -1488,12 +1532,16 @@ mod logi {
                         let ds = DatasetBase::new(x.clone(), y);
                         let dss = DatasetBase::new(x.clone(), ys);
                         let p = LogisticRegression::<$F>::default();
-                        let p = match cfg.var {
+                        // fitted models and labels: configurations 4.. are post-fit changes of configuration 0
+                        let fitted = ["FittedLogisticRegression", "BinaryClassLabels", "ClassLabel"].contains(&cfg.ty.as_str());
+                        let p = match if fitted && cfg.var >= 4 { 0 } else { cfg.var } {
                             0 => p.alpha(<$F>::of(0.5)).max_iterations(200),
                             1 => p.alpha(<$F>::of(0.1)).with_intercept(false).gradient_tolerance(<$F>::of(1e-6)).max_iterations(150),
                             2 => p.alpha(<$F>::of(1.5)).initial_params(Array1::from_shape_fn(x.ncols() + 1, |i| <$F>::of(0.1 * (i as f64 + 1.0) * if i % 2 == 1 { -1.0 } else { 1.0 }))),
-                            3 => p.alpha(<$F>::of(-1.0)),
-                            4 => p.gradient_tolerance(<$F>::of(0.0)),
+                            // boundary values of the legal ranges: alpha = 0, the smallest positive gradient tolerance
+                            3 => p.alpha(edge::<$F>(0)).gradient_tolerance(edge::<$F>(4)).max_iterations(30),
+                            4 => p.alpha(<$F>::of(-1.0)),
+                            5 => p.gradient_tolerance(<$F>::of(0.0)),
                             _ => bad_var(cfg),
                         };
                         match cfg.ty.as_str() {
@@ -1526,13 +1574,39 @@ mod logi {
                                     hist!(ev, cfg, "model", FittedLogisticRegression<$F, String>, m, |m: &FittedLogisticRegression<$F, String>| m.obs(), eq)
                                 } else {
                                     let m = p.fit(&ds).expect("harness: setup: logistic fit");
+                                    // the post-fit setter at the ends of its closed interval [0, 1] and just inside them
+                                    let m = match cfg.var {
+                                        0 | 1 | 3 => m,
+                                        4 => m.set_threshold(edge::<$F>(0)),
+                                        5 => m.set_threshold(edge::<$F>(2)),
+                                        6 => m.set_threshold(edge::<$F>(7)),
+                                        7 => m.set_threshold(edge::<$F>(4)),
+                                        8 => m.set_threshold(edge::<$F>(1)),
+                                        _ => bad_var(cfg),
+                                    };
                                     hist!(ev, cfg, "model", FittedLogisticRegression<$F, usize>, m, |m: &FittedLogisticRegression<$F, usize>| m.obs(), eq)
                                 }
                             }
                             "BinaryClassLabels" => {
                                 let m = p.fit(&dss).expect("harness: setup: logistic fit");
                                 type T = BinaryClassLabels<$F, String>;
-                                hist!(ev, cfg, "model", T, m.labels().clone(), |l: &T| {
+                                let mut l0 = m.labels().clone();
+                                // public fields at boundary values: empty / non-ASCII class names, labels 0, -0, 1, largest float
+                                match cfg.var {
+                                    0..=3 => {}
+                                    4 => {
+                                        l0.pos.class = String::new();
+                                        l0.pos.label = edge::<$F>(2);
+                                        l0.neg.class = "\u{0}\u{10ffff} \"q\"".to_string();
+                                        l0.neg.label = edge::<$F>(1);
+                                    }
+                                    5 => {
+                                        l0.pos.label = edge::<$F>(5);
+                                        l0.neg.label = edge::<$F>(4);
+                                    }
+                                    _ => bad_var(cfg),
+                                }
+                                hist!(ev, cfg, "model", T, l0, |l: &T| {
                                     let mut o = Ob::new();
                                     o.d("pos.class", Dg::new().s(&l.pos.class));
                                     o.f("pos.label", Dg::new().f(l.pos.label));
@@ -1544,7 +1618,20 @@ mod logi {
                             _ => {
                                 let m = p.fit(&ds).expect("harness: setup: logistic fit");
                                 type T = ClassLabel<$F, usize>;
-                                hist!(ev, cfg, "model", T, m.labels().neg.clone(), |l: &T| {
+                                let mut l0 = m.labels().neg.clone();
+                                match cfg.var {
+                                    0..=3 => {}
+                                    4 => {
+                                        l0.class = usize::MAX;
+                                        l0.label = edge::<$F>(0);
+                                    }
+                                    5 => {
+                                        l0.class = 0;
+                                        l0.label = edge::<$F>(6);
+                                    }
+                                    _ => bad_var(cfg),
+                                }
+                                hist!(ev, cfg, "model", T, l0, |l: &T| {
                                     let mut o = Ob::new();
                                     o.d("class", Dg::new().u(l.class as u64));
                                     o.f("label", Dg::new().f(l.label));
@@ -1706,6 +1793,9 @@ mod svm {
                         let v: SeparatingHyperplane<$F> = match cfg.var {
                             0 => SeparatingHyperplane::Linear(cloud::<$F>(9 + cfg.data, 1, 4, -1.0, 1.0).row(0).to_owned()),
                             1 => SeparatingHyperplane::WeightedCombination(cloud::<$F>(10 + cfg.data, 3, 2, -1.0, 1.0)),
+                            2 => SeparatingHyperplane::Linear(Array1::zeros(0)),
+                            3 => SeparatingHyperplane::WeightedCombination(Array2::zeros((0, 4))),
+                            4 => SeparatingHyperplane::Linear(Array1::from(vec![edge::<$F>(1), edge::<$F>(4), edge::<$F>(5), edge::<$F>(6)])),
                             _ => bad_var(cfg),
                         };
                         hist!(ev, cfg, "plain", SeparatingHyperplane<$F>, v, |v: &SeparatingHyperplane<$F>| {
@@ -1729,6 +1819,10 @@ mod svm {
                             0 => KernelMethod::Gaussian(<$F>::of(0.7)),
                             1 => KernelMethod::Linear,
                             2 => KernelMethod::Polynomial(<$F>::of(1.1), <$F>::of(3.0)),
+                            3 => KernelMethod::Gaussian(edge::<$F>(3)),
+                            4 => KernelMethod::Polynomial(edge::<$F>(0), edge::<$F>(0)),
+                            5 => KernelMethod::Polynomial(edge::<$F>(1), edge::<$F>(2)),
+                            6 => KernelMethod::Gaussian(edge::<$F>(5)),
                             _ => bad_var(cfg),
                         };
                         hist!(ev, cfg, "plain", KernelMethod<$F>, v, |v: &KernelMethod<$F>| {
@@ -1753,7 +1847,7 @@ mod svm {
                             1 => p.method(KernelMethod::Polynomial(<$F>::of(0.5), <$F>::of(2.0))),
                             2 => p.method(KernelMethod::Gaussian(<$F>::of(0.9))).kind(KernelType::Sparse(3)),
                             3 | 5 => p.method(KernelMethod::Linear).kind(KernelType::Sparse(2)).nn_algo(CommonNearestNeighbour::BallTree),
-                            4 => p.method(KernelMethod::Gaussian(<$F>::of(1.1))),
+                            4 | 6 => p.method(KernelMethod::Gaussian(<$F>::of(1.1))),
                             _ => bad_var(cfg),
                         };
                         // the k-d tree index documents that it needs contiguous points
@@ -1763,6 +1857,8 @@ mod svm {
                         let k: Kernel<$F> = match (cfg.var, k.inner) {
                             (4, linfa_kernel::KernelInner::Dense(a)) => Kernel { inner: linfa_kernel::KernelInner::Dense(col_major(&a)), method: k.method },
                             (5, linfa_kernel::KernelInner::Sparse(a)) => Kernel { inner: linfa_kernel::KernelInner::Sparse(a.to_csc()), method: k.method },
+                            // the public `method` field replaced after construction, with boundary parameters
+                            (6, inner) => Kernel { inner, method: KernelMethod::Polynomial(edge::<$F>(1), edge::<$F>(2)) },
                             (_, inner) => Kernel { inner, method: k.method },
                         };
                         hist!(ev, cfg, "model", Kernel<$F>, k, |k: &Kernel<$F>| obs_kernel(k), eq)
@@ -1780,9 +1876,21 @@ mod svm {
                             0 => p.pos_neg_weights(<$F>::of(5.0), <$F>::of(5.0)).gaussian_kernel(<$F>::of(4.0)),
                             1 => p.pos_neg_weights(<$F>::of(1.0), <$F>::of(2.0)).linear_kernel(),
                             2 => p.nu_weight(<$F>::of(0.3)).polynomial_kernel(<$F>::of(1.0), <$F>::of(2.0)),
+                            3 => p.pos_neg_weights(<$F>::of(5.0), <$F>::of(5.0)).gaussian_kernel(<$F>::of(4.0)),
+                            4 => p.pos_neg_weights(<$F>::of(1.0), <$F>::of(2.0)).linear_kernel(),
                             _ => bad_var(cfg),
                         };
-                        let m = p.fit(&ds).expect("harness: setup: svc fit");
+                        let mut m = p.fit(&ds).expect("harness: setup: svc fit");
+                        // public fields `rho` / `alpha` moved to boundary values after the fit
+                        if cfg.var == 3 {
+                            m.rho = edge::<$F>(1);
+                            m.alpha[0] = edge::<$F>(0);
+                            m.alpha[1] = edge::<$F>(4);
+                        } else if cfg.var == 4 {
+                            m.rho = edge::<$F>(5);
+                            m.alpha[0] = edge::<$F>(6);
+                            m.alpha.truncate(3);
+                        }
                         hist!(ev, cfg, "model", Svm<$F, bool>, m, |m: &Svm<$F, bool>| m.obs(), eq)
                     }};
                 }
@@ -1796,10 +1904,14 @@ mod svm {
                         let p = Svm::<$F, Pr>::params().eps(<$F>::of(1e-3));
                         let p = match cfg.var {
                             0 => p.pos_neg_weights(<$F>::of(5.0), <$F>::of(5.0)).gaussian_kernel(<$F>::of(4.0)),
-                            1 => p.pos_neg_weights(<$F>::of(1.0), <$F>::of(1.0)).linear_kernel(),
+                            1 | 2 => p.pos_neg_weights(<$F>::of(1.0), <$F>::of(1.0)).linear_kernel(),
                             _ => bad_var(cfg),
                         };
-                        let m: Svm<$F, Pr> = p.fit(&ds).expect("harness: setup: svm-pr fit");
+                        let mut m: Svm<$F, Pr> = p.fit(&ds).expect("harness: setup: svm-pr fit");
+                        if cfg.var == 2 {
+                            m.rho = edge::<$F>(2);
+                            m.alpha[0] = edge::<$F>(1);
+                        }
                         hist!(ev, cfg, "model", Svm<$F, Pr>, m, |m: &Svm<$F, Pr>| m.obs(), eq)
                     }};
                 }
@@ -1814,9 +1926,15 @@ mod svm {
                         let p = match cfg.var {
                             0 => p.c_svr(<$F>::of(10.0), Some(<$F>::of(0.1))).linear_kernel(),
                             1 => p.nu_svr(<$F>::of(0.5), Some(<$F>::of(10.0))).gaussian_kernel(<$F>::of(8.0)),
+                            2 => p.c_svr(<$F>::of(10.0), Some(<$F>::of(0.1))).linear_kernel(),
                             _ => bad_var(cfg),
                         };
-                        let m = p.fit(&ds).expect("harness: setup: svr fit");
+                        let mut m = p.fit(&ds).expect("harness: setup: svr fit");
+                        if cfg.var == 2 {
+                            m.rho = edge::<$F>(0);
+                            let n = m.alpha.len();
+                            m.alpha[n - 1] = edge::<$F>(5);
+                        }
                         hist!(ev, cfg, "model", Svm<$F, $F>, m, |m: &Svm<$F, $F>| m.obs(), eq)
                     }};
                 }
@@ -1830,10 +1948,13 @@ mod svm {
                         let p = Svm::<$F, Pr>::params().eps(<$F>::of(1e-3)).nu_weight(<$F>::of(0.3));
                         let p = match cfg.var {
                             0 => p.gaussian_kernel(<$F>::of(3.0)),
-                            1 => p.linear_kernel(),
+                            1 | 2 => p.linear_kernel(),
                             _ => bad_var(cfg),
                         };
-                        let m: Svm<$F, bool> = p.fit(&ds).expect("harness: setup: one-class fit");
+                        let mut m: Svm<$F, bool> = p.fit(&ds).expect("harness: setup: one-class fit");
+                        if cfg.var == 2 {
+                            m.rho = edge::<$F>(3);
+                        }
                         hist!(ev, cfg, "model", Svm<$F, bool>, m, |m: &Svm<$F, bool>| m.obs(), eq)
                     }};
                 }
@@ -1916,7 +2037,9 @@ mod trees {
                             0 => p,
                             1 => p.split_quality(SplitQuality::Entropy).max_depth(Some(3)).min_weight_split(3.0).min_weight_leaf(2.0).min_impurity_decrease(<$F>::of(1e-3)),
                             2 => p.max_depth(Some(1)),
-                            3 => p.min_impurity_decrease(<$F>::of(0.0)),
+                            // boundary of the legal range: the smallest admissible impurity decrease
+                            3 => p.min_impurity_decrease(edge::<$F>(8)).max_depth(Some(2)).min_weight_split(0.0).min_weight_leaf(0.0),
+                            4 => p.min_impurity_decrease(<$F>::of(0.0)),
                             _ => bad_var(cfg),
                         };
                         match cfg.ty.as_str() {
@@ -2120,6 +2243,9 @@ mod ftrl {
                     4 => FtrlError::InvalidNFeatures(0),
                     5 => FtrlError::LinfaError(linfa::Error::Priors("q".into())),
                     6 => FtrlError::LinfaError(linfa::Error::MismatchedShapes(1, 2)),
+                    7 => FtrlError::InvalidL1Ratio(1.0),
+                    8 => FtrlError::InvalidAlpha(-0.0),
+                    9 => FtrlError::InvalidNFeatures(usize::MAX),
                     _ => bad_var(cfg),
                 };
                 hist!(ev, cfg, "plain", FtrlError, v, |e: &FtrlError| {
@@ -2139,8 +2265,10 @@ mod ftrl {
                         let p = match cfg.var {
                             0 => p,
                             1 => p.alpha(<$F>::of(0.5)).beta(<$F>::of(0.7)).l1_ratio(<$F>::of(0.01)).l2_ratio(<$F>::of(0.3)),
-                            2 => p.l1_ratio(<$F>::of(1.5)),
-                            3 => p.alpha(<$F>::of(-0.5)),
+                            // the ends of the closed ranges: ratios 0 and 1, alpha = beta = 0
+                            2 => p.alpha(edge::<$F>(8)).beta(edge::<$F>(0)).l1_ratio(edge::<$F>(0)).l2_ratio(edge::<$F>(2)),
+                            3 => p.l1_ratio(<$F>::of(1.5)),
+                            4 => p.alpha(<$F>::of(-0.5)),
                             _ => bad_var(cfg),
                         };
                         type P = FtrlParams<$F, Xoshiro256Plus>;
@@ -2359,6 +2487,10 @@ mod red {
                     0 => GFunc::Logcosh(1.3),
                     1 => GFunc::Exp,
                     2 => GFunc::Cube,
+                    // the ends of the documented range [1, 2] of the log-cosh parameter
+                    3 => GFunc::Logcosh(1.0),
+                    4 => GFunc::Logcosh(2.0),
+                    5 => GFunc::Logcosh(-0.0),
                     _ => bad_var(cfg),
                 };
                 hist!(ev, cfg, "plain", GFunc, v, |v: &GFunc| { let mut o = Ob::new(); o.f("debug", dbg(v)); o.f("tree", tree(v)); o }, eq)
@@ -2572,6 +2704,10 @@ mod prep {
                             0 => ScalingMethod::Standard(true, false),
                             1 => ScalingMethod::MinMax(<$F>::of(-0.3), <$F>::of(1.7)),
                             2 => ScalingMethod::MaxAbs,
+                            3 => ScalingMethod::MinMax(edge::<$F>(0), edge::<$F>(0)),
+                            4 => ScalingMethod::MinMax(edge::<$F>(1), edge::<$F>(2)),
+                            5 => ScalingMethod::Standard(false, false),
+                            6 => ScalingMethod::MinMax(edge::<$F>(6), edge::<$F>(5)),
                             _ => bad_var(cfg),
                         };
                         hist!(ev, cfg, "plain", ScalingMethod<$F>, v, |v: &ScalingMethod<$F>| { let mut o = Ob::new(); o.f("debug", dbg(v)); o.f("display", Dg::new().s(&v.to_string())); o.f("tree", tree(v)); o }, eq)
@@ -2612,7 +2748,8 @@ mod prep {
                             1 => LinearScaler::standard_no_mean(),
                             2 => LinearScaler::min_max_range(<$F>::of(-0.3), <$F>::of(1.7)),
                             3 => LinearScaler::max_abs(),
-                            4 => LinearScaler::min_max_range(<$F>::of(2.0), <$F>::of(1.0)),
+                            4 => LinearScaler::min_max_range(edge::<$F>(2), edge::<$F>(2)),
+                            5 => LinearScaler::min_max_range(<$F>::of(2.0), <$F>::of(1.0)),
                             _ => bad_var(cfg),
                         };
                         if cfg.ty == "LinearScaler" {
